@@ -265,6 +265,18 @@ def check_functor(case):
     eq(F(total), Fd + F(par), "sum")
     empty = type(total)([], d.dom, d.cod)
     eq(F(empty), type(total)([], Fd.dom, Fd.cod), "empty-sum")
+    # sums of one and of three terms: the image is the formal sum of the
+    # images, term for term (a sum of one term is not that term)
+    for terms in ([d], [d, par, d]):
+        image = F(type(total)(terms, d.dom, d.cod))
+        want = type(total)([F(x) for x in terms], Fd.dom, Fd.cod)
+        require(type(image) is type(want) and len(
+            getattr(image, "terms", ())) == len(terms), "C04:sum",
+            lambda: "image of a sum of {} terms: {!r}".format(
+                len(terms), image)[:800])
+        eq(image, want, "sum")
+    eq(F((d + empty) >> ident_of(cls, d.cod)), type(total)(
+        [Fd], Fd.dom, Fd.cod), "sum")
     # bubbles
     eq(F(d.bubble()), Fd.bubble(), "bubble")
     # bubbles declared with other types than their inside (the ends of e,
@@ -355,6 +367,10 @@ def check_sum_images(case, cls):
     eq(G(b @ a @ b), G(b) @ G(a) @ G(b), "tensor-of-sum-images")
     if specs.tkey(a.cod) == specs.tkey(b.dom):
         eq(G(a >> b), G(a) >> G(b), "composite-of-sum-images")
+
+
+def ident_of(cls, t):
+    return specs.mod(cls).Id(t)
 
 
 def eq_ty(x, y, label):
